@@ -1,6 +1,7 @@
 import Driver.Util
 import SonicModel.Impl.Entry
 import SonicModel.Impl.DomParse
+import SonicModel.Impl.NumSkip
 namespace Driver
 open Sonic Sonic.Impl
 
@@ -30,7 +31,17 @@ def c02 (args : List String) : String :=
         | .ok e => Spec.utf8FirstInvalid buf 0 ≥ e
         | _ => false
       let md := (Sonic.DomP.document buf).isSome
-      s!"m.lazy={verdictStr lz} spec.skip={ar (u && g)} spec.full={ar (u && s)} spec.prefix={ar pre} spec.sprefix={ar spre} utf8={ar u} m.dom={ar (u && md)}"
+      -- a leading number through the 32-lane model of do_skip_number (Impl/NumSkip.lean) and through the scalar one
+      let w := skipWs buf 0
+      let ires (r : IRes) : String := match r with
+        | .ok e => s!"ok:{w}:{e}"
+        | .err c o => s!"err:{c.name}:{o}"
+        | .fuel => "FUEL"
+      let nb : String := match buf[w]? with
+        | some c => if c == 45 || isDigit c then
+            s!" m.numB={ires (doSkipNumberB true buf c (w + 1))} m.numS={ires (doSkipNumber buf c (w + 1))}" else ""
+        | none => ""
+      s!"m.lazy={verdictStr lz} spec.skip={ar (u && g)} spec.full={ar (u && s)} spec.prefix={ar pre} spec.sprefix={ar spre} utf8={ar u} m.dom={ar (u && md)}{nb}"
   | _ => "bad-args"
 
 end Driver
